@@ -46,6 +46,7 @@ var c20Reqs = []c20Req{
 		map[string]int{"b": 1, "b.id": 1, "b.nodes.id": 1, "b.peer": 1}},
 	{"literal-and-variable-args", `query($i:Int,$n:Int,$s:String){ echo(i:$i, s:"lit") echo2(s:$s, i:4) nodes(n:$n, as:"A") { id } a { items(n:$n) { n } name(up:true) } }`,
 		[]map[string]interface{}{v("i", 5, "n", 3, "s", "sv"), v("i", 1, "n", 1), v("s", "only-s")}, nil},
+	{"typed-fragment-merge", `{ a { ...P } c { ...P } nodes(n:3) { ...P } } fragment P on Node { peer(as:"B") { id } ... on A { peer(as:"B") { ... on B { bOnly } } } ... on C { peer(as:"B") { name } } }`, nil, nil},
 	{"static-args", `{ echo(i:1, s:"a", e:BETA, f:{min:2}) echo2(l:[4,5]) a { items(n:3) { n } name(up:true) } }`, nil, nil},
 	{"union-default-resolve", `{ u { ... on A { aOnly items(n:1) { n } } ... on B { bOnly } } b { u { ... on A { id } ... on B { id } } } }`, nil, nil},
 }
